@@ -113,6 +113,7 @@ def run(rep, tier, seed, replay=None):
     # with the deliveries the model consumed after its n-th send) up to a cut point and then falls silent; result,
     # requests seen by the server and wall clock against the model of the same (cut) exchange
     famreal = {}
+    slow_budget = {}
     if replay is None:
         for fam in ("quake", "gs1", "gs2", "gs3", "unreal2", "mcbedrock", "valve"):
             d = netprops.FAMILIES.get(fam)
@@ -148,15 +149,29 @@ def run(rep, tier, seed, replay=None):
                         used += 1
                         bursts[-1] += 1
                 famv = "v6" if k2 % 2 else "v4"
-                ms = 60
+                blocked = sum(1 for e in tr if (e.startswith("R") and e.endswith(":T")) or (e.startswith("S") and e.endswith("!")))
+                # a server that stops in the MIDDLE of a reply (it answered the last request with some datagrams, not all):
+                # measured with a timeout long enough for one extra wait per attempt to stand out from scheduling noise
+                mid = bool(bursts) and bursts[-1] > 0 and blocked > 0
+                ms = 400 if mid and slow_budget.get(fam_, 0) < (6 if tier == "quick" else 24) else 60
+                if ms == 400:
+                    slow_budget[fam_] = slow_budget.get(fam_, 0) + 1
                 dl = ",".join("~" if x is None else x.hex() for x in ds) or "."
                 line = f"{i} realfam {famv} {ms} {'.'.join(map(str, bursts)) or '-'} {dl} " + c.line("x").split(" ", 1)[1]
                 cases.append(line)
-                blocked = sum(1 for e in tr if (e.startswith("R") and e.endswith(":T")) or (e.startswith("S") and e.endswith("!")))
                 sent = [dd for (_, _, dd, failed) in vlib.sends_of(mo) if not failed]
                 famreal[i] = (vlib.result_of(mo), sent, blocked, ms, fam_)
     model = vlib.run_model([c for c in cases if c.split(" ")[1] != "realfam"])
-    impl, panics = vlib.run_impl(cases, tag="c12")
+    # the long-timeout cases side by side (they sleep most of the time), the rest one after the other
+    slow = [c for c in cases if c.split(" ")[1] == "realfam" and c.split(" ")[3] == "400"]
+    impl, panics = vlib.run_impl([c for c in cases if c not in slow], tag="c12")
+    if slow:
+        from concurrent.futures import ThreadPoolExecutor
+        lanes = [slow[k::6] for k in range(6)]
+        with ThreadPoolExecutor(6) as ex:
+            for io, pa in ex.map(lambda kl: vlib.run_impl(kl[1], tag=f"c12s{kl[0]}"), [(k, l) for k, l in enumerate(lanes) if l]):
+                impl.update(io)
+                panics.update(pa)
     for c in cases:
         cid = c.split(" ", 1)[0]
         m, i = model.get(cid, "<none>"), impl.get(cid, "<none>")
